@@ -20,6 +20,8 @@ from .nodes import Node
 __constants = {}
 # Stores all defined functions with their return sorts
 __defined_functions = {}
+# Stores the names of defined functions that occur in their own definition
+__recursive_functions = set()
 # Stores the ids of all nodes that are symbols within their definitions
 # i.e. the id of x within ``(declare-const x Int)``
 __definition_node_ids = set()
@@ -42,6 +44,7 @@ def collect_information(exprs):  # noqa: C901
     and sorts of all these symbols."""
     global __constants
     global __defined_functions
+    global __recursive_functions
     global __definition_node_ids
     global __sort_lookup
     global __indices
@@ -93,6 +96,9 @@ def collect_information(exprs):  # noqa: C901
                 continue
             if cmd[2] == tuple():
                 __constants[cmd[1]] = cmd[3]
+            if any(n == cmd[1] for n in nodes.dfs(cmd[4])):
+                # only happens for ill-formed (partially reduced) inputs
+                __recursive_functions.add(cmd[1].data)
             __defined_functions[cmd[1]] = (len(
                 cmd[2]), lambda args, cmd=cmd: nodes.substitute(
                     cmd[4], {cmd[2][i][0]: args[i]
@@ -207,6 +213,7 @@ def reset_information():
     """
     global __constants
     global __defined_functions
+    global __recursive_functions
     global __definition_node_ids
     global __sort_lookup
     global __indices
@@ -216,6 +223,7 @@ def reset_information():
     global __datatypes_selectors
     __constants = {}
     __defined_functions = {}
+    __recursive_functions = set()
     __definition_node_ids = set()
     __sort_lookup = {}
     __indices = set()
@@ -827,6 +835,18 @@ def is_defined_fun(node):
     if isinstance(node, str) or node.is_leaf():
         return node in __defined_functions
     return node.has_ident() and node.get_ident() in __defined_functions
+
+
+def is_recursive_defined_fun(node):
+    """Check whether the defined function ``node`` occurs in its own
+    definition.
+
+    Assumes ``is_defined_fun(node)``. Requires that global information
+    has been populated via ``collect_information``.
+    """
+    if node.is_leaf():
+        return node.data in __recursive_functions
+    return node.get_ident().data in __recursive_functions
 
 
 def get_defined_fun(node):
